@@ -22,7 +22,8 @@ PROP = dict(
           "csv: tables of 1..8 uniquely named identifier columns (given by columns(Array), columns(\"a,b\") or the constructor) and 0..30 rows of "
           "cells: ints (full 32-bit range and small), doubles (random bit patterns mapped into {0,-0} U [2^-962, 2^963), powers of ten, decimal "
           "fractions, 15- and 16-digit values, products with 1e+-30, 1e+-200), empty strings, strings of up to 60 chars over letters, digits . - + "
-          "(never first), blank , ; \" ' _ including the hand-picked quote/separator shapes; rows written cell by cell with << (int, double, "
+          "(never first), blank , ; \" ' _ including the hand-picked quote/separator shapes; tables of >= 2 columns also with setSeparator(';') + setDecimal(',') (the format the reader infers from a ';' header; string "
+          "cells then do not start with ',') and with setSeparator(TAB); rows written cell by cell with << (int, double, "
           "String, const char*) or as one array Var. Oracle: the file is read back with data() and with nextRow() + operator[](int) + "
           "operator[](name): column names, row count and row lengths equal, string cells come back as strings with identical bytes, int cells as "
           "numbers equal to the int, double cells as numbers with |r-x| <= 6e-15|x| (rounding to 15 significant digits moves a value by at most "
@@ -34,6 +35,6 @@ PROP = dict(
                  "section names and keys are unique identifiers (duplicate keys or headers make 'the value' ambiguous); set values have no leading/trailing blanks",
                  "IniFile objects are constructed with the default shouldwrite=true; the deprecated section()/arraysize()/array() interface is not used",
                  "CSV string cells never start with a digit, '-', '.' or '+' (CSV carries no types: such a string is a number to the reader); doubles are 0 or "
-                 "within [1e-290, 1e290]; float (7-digit) cells, NaN and infinities are not generated; the separator is the default ','",
+                 "within [1e-290, 1e290]; float (7-digit) cells, NaN and infinities are not generated; separator/decimal are ',' '.', or ';' ',' or TAB '.' set on the writer and inferred by the reader from the header (so only with >= 2 columns); ';' with '.' is not a format the reader can infer",
                  "AddressSanitizer reports every out-of-bounds access of the line/section bookkeeping"],
 )
